@@ -81,7 +81,10 @@ def finite_pred_target(ev, P, negated=False):
 
 
 def rule_svd_finite(F, ev_unused, R, config, rule="R-SVD-FINITE"):
+    # every decomposition site is analysed where it stands (its own function, or the function owning its closure);
+    # guards established by helpers it calls arrive as interprocedural success conditions (Guards.relations_at)
     sites = []
+    merged_roots = {}
     for b in F.bodies.values():
         for bi, t in b.calls():
             if is_svd_site(t):
@@ -94,7 +97,7 @@ def rule_svd_finite(F, ev_unused, R, config, rule="R-SVD-FINITE"):
         rk = b.j.get("root", b.key)
         roots.setdefault(rk, []).append((b, bi, t))
     for rk, ss in sorted(roots.items()):
-        root = F.bodies[rk]
+        root = merged_roots.get(rk) or F.bodies[rk]
         env = Env(root)
         for bi, t in root.calls():
             ev.call_val(env, bi)
@@ -114,6 +117,8 @@ def rule_svd_finite(F, ev_unused, R, config, rule="R-SVD-FINITE"):
                 for term, truth, sw in raw:
                     if isinstance(truth, bool):
                         conds.add(("pred", term if truth else ("un", "Not", term)))
+                    elif truth == "forall":
+                        conds.add(term)    # loop summary established inside a helper whose success is tested here
                 for fa in foralls_at(g, bi):
                     conds.add(fa)
                 recs = [(("call", "", None, (arg,), None), frozenset(conds))]
